@@ -40,9 +40,9 @@ func main() {
 	case "corr":
 		corr(*seed, *n, strings.Split(*kinds, ","), *repo)
 	case "search":
-		search(*seed, *n, *dcPath, *repo, *mode)
+		search(*seed, *n, *dcPath, *repo, *mode, *kinds)
 	case "worker":
-		worker(*dcPath, *mode)
+		worker(*dcPath, *mode, strings.Split(*kinds, ","))
 	case "types":
 		r, s := mp4.VerifC01BoxTypes()
 		fmt.Fprintln(out, strings.Join(r, ","))
@@ -183,9 +183,11 @@ type wproc struct {
 	rd  *bufio.Reader
 }
 
+var workerKinds string
+
 func startWorker(dc, mode string) *wproc {
 	self, _ := os.Executable()
-	cmd := exec.Command("sh", "-c", fmt.Sprintf("ulimit -v 8000000 2>/dev/null; exec '%s' worker -dontcare '%s' -prop %s", self, dc, mode))
+	cmd := exec.Command("sh", "-c", fmt.Sprintf("ulimit -v 8000000 2>/dev/null; exec '%s' worker -dontcare '%s' -prop %s -kinds '%s'", self, dc, mode, workerKinds))
 	in, _ := cmd.StdinPipe()
 	so, _ := cmd.StdoutPipe()
 	cmd.Stderr = nil
@@ -202,7 +204,8 @@ func (w *wproc) stop() {
 	_, _ = w.cmd.Process.Wait()
 }
 
-func search(seed uint64, n int, dc string, repo string, mode string) {
+func search(seed uint64, n int, dc string, repo string, mode string, kinds string) {
+	workerKinds = kinds
 	r := hx.NewRng(seed + 77)
 	reg := registered()
 	hv := bx.Harvest(repo, 300000)
@@ -237,6 +240,20 @@ func search(seed uint64, n int, dc string, repo string, mode string) {
 	}
 	for _, b := range bx.Exhaustive() {
 		cases = append(cases, cs{b, "gen"})
+	}
+	// structured VALID variants of boxes with ordered / optional sub-structures: well-formed inputs
+	for _, set := range [][][]byte{bx.EsdsVariants(), bx.SampleEntryVariants(), bx.SgpdUuidVariants()} {
+		for _, b := range set {
+			cases = append(cases, cs{b, "gen"})
+			if len(cases)%3 == 0 {
+				for _, m := range bx.Mutate(r, b, 1) {
+					cases = append(cases, cs{m, "gen-mut"})
+				}
+			}
+		}
+	}
+	for i := 0; i < 40+n/100; i++ {
+		cases = append(cases, cs{bx.GenEsds(r), "gen"})
 	}
 	// generated boxes and trees always get a share of the budget (at least n/4 of them)
 	for i, quota := 0, len(cases)+n/4; len(cases) < n || len(cases) < quota; i++ {
@@ -317,8 +334,14 @@ func search(seed uint64, n int, dc string, repo string, mode string) {
 	fmt.Fprintf(out, "EVALS\t%d\n", evals)
 }
 
-func worker(dcPath, mode string) {
+func worker(dcPath, mode string, kinds []string) {
 	bx.Registered = registered()
+	modelled := map[string]bool{}
+	for _, k := range kinds {
+		if k != "" {
+			modelled[k] = true
+		}
+	}
 	dc, err := bx.LoadDontCare(dcPath)
 	if err != nil {
 		fmt.Fprintln(os.Stderr, "dontcare:", err)
@@ -366,7 +389,11 @@ func worker(dcPath, mode string) {
 				continue
 			}
 			seen[k] = true
-			fmt.Fprintf(out, "FAIL\t%s\t%s\t%s\t%s\n", f.Site, f.Class, f.Witness, strings.ReplaceAll(f.Desc, "\n", " "))
+			mflag := "M0"
+			if len(modelled) > 0 && onlyModelled(in, modelled, bx.Registered) {
+				mflag = "M1"
+			}
+			fmt.Fprintf(out, "FAIL\t%s\t%s\t%s\t%s\t%s\n", f.Site, f.Class, f.Witness, strings.ReplaceAll(f.Desc, "\n", " "), mflag)
 		}
 		fmt.Fprintf(out, "DONE\t%s\t%d\t%d\n", p[0], evals, acc)
 		out.Flush()
